@@ -8,6 +8,7 @@ import (
 	"fmt"
 	"math"
 	"reflect"
+	"sync/atomic"
 	"testing"
 	"time"
 
@@ -29,7 +30,13 @@ type Setting struct {
 	Indent     string `json:"indent,omitempty"`
 	N          int    `json:"n,omitempty"`       // consecutive Encode calls on one Encoder
 	FailAt     int    `json:"fail_at,omitempty"` // Encoder only: the writer fails on its FailAt-th Write (0 = never)
+	// DecodeFirst: the struct types of the case are materialised fresh (a nonce no codec cache has seen) and the
+	// first thing the library does with the type is a decode into it; the encoder and the decoder share the
+	// per-type cache, and what the decoder put there must not change what the encoder writes.
+	DecodeFirst bool `json:"decode_first,omitempty"`
 }
+
+var freshNonce atomic.Int64
 
 // failWriter accepts writes until the FailAt-th one, which (and every later one) fails.
 type failWriter struct {
@@ -106,7 +113,14 @@ func arg(c Case) any {
 	if c.Special != "" {
 		return specialValue(c.Special, c.N)
 	}
-	v := jgen.Build(c.Type.Type(), c.Value)
+	td := c.Type
+	if c.Setting.DecodeFirst {
+		td = jgen.Fresh(c.Type, int(freshNonce.Add(1))+evid.Shard()*50_000_000+1_000_000_000)
+		t := td.Type()
+		segjson.Unmarshal([]byte("null"), reflect.New(t).Interface())
+		segjson.Unmarshal([]byte("{}"), reflect.New(t).Interface())
+	}
+	v := jgen.Build(td.Type(), c.Value)
 	if c.Setting.ByPtr {
 		return v.Addr().Interface()
 	}
@@ -228,7 +242,7 @@ func expectStr(r result) string {
 // ------------------------------------------------------------------ generation
 
 func genSetting(rt *rapid.T) Setting {
-	s := Setting{ByPtr: rapid.Bool().Draw(rt, "byptr")}
+	s := Setting{ByPtr: rapid.Bool().Draw(rt, "byptr"), DecodeFirst: rapid.IntRange(0, 7).Draw(rt, "decodefirst") == 0}
 	switch rapid.IntRange(0, 9).Draw(rt, "api") {
 	case 0, 1, 2, 3:
 		s.API = "Marshal"
@@ -290,6 +304,9 @@ func labels(c Case, t reflect.Type) {
 		evid.Label("top.by-pointer")
 	} else {
 		evid.Label("top.by-value")
+	}
+	if c.Setting.DecodeFirst {
+		evid.Label("fresh-type.decoded-into-before-first-encode")
 	}
 	evid.Label("top.kind." + t.Kind().String())
 	if isPointerShaped(t) {
